@@ -8,7 +8,7 @@ use serde::de::DeserializeOwned;
 use serde_json::Value;
 use std::collections::HashMap;
 use std::io::ErrorKind;
-use std::sync::atomic::{AtomicU64, Ordering};
+use std::sync::atomic::{AtomicBool, AtomicU64, Ordering};
 use std::sync::{Arc, Mutex as StdMutex};
 use tokio::io::AsyncWriteExt;
 use tokio::io::{BufReader, BufWriter};
@@ -31,6 +31,28 @@ struct AsyncClientInner {
     pending: StdMutex<PendingRequests>,
     next_id: AtomicU64,
     shutdown: StdMutex<Option<oneshot::Sender<()>>>,
+    /// Set when a frame write was abandoned part-way (the writing future was
+    /// dropped, or a write failed mid-frame). The stream then ends in a partial
+    /// frame, so nothing more may be written to it: the next writer shuts the
+    /// connection down instead. Read and written under the `writer` lock.
+    write_interrupted: AtomicBool,
+}
+
+/// Marks the connection as ending in a partial frame unless the frame write it
+/// guards ran to completion. Lives inside the `write_request` future, so it
+/// also fires when that future is dropped at an `.await` (a cancelled or
+/// timed-out caller) with the frame half written.
+struct FrameWriteGuard<'a> {
+    interrupted: &'a AtomicBool,
+    completed: bool,
+}
+
+impl Drop for FrameWriteGuard<'_> {
+    fn drop(&mut self) {
+        if !self.completed {
+            self.interrupted.store(true, Ordering::Release);
+        }
+    }
 }
 
 impl Drop for AsyncClientInner {
@@ -107,6 +129,7 @@ impl AsyncClient {
             pending: StdMutex::new(HashMap::new()),
             next_id: AtomicU64::new(1),
             shutdown: StdMutex::new(Some(shutdown_tx)),
+            write_interrupted: AtomicBool::new(false),
         });
 
         spawn_response_loop(
@@ -673,10 +696,25 @@ impl AsyncClient {
 
     async fn write_request(&self, msg: &Message) -> Result<(), RepeError> {
         let mut writer = self.inner.writer.lock().await;
+        if self.inner.write_interrupted.load(Ordering::Acquire) {
+            // An earlier frame was left half written: appending this one would
+            // be parsed by the peer as the rest of that frame. Fail the
+            // connection instead.
+            let _ = writer.shutdown().await;
+            return Err(RepeError::Io(std::io::Error::new(
+                ErrorKind::BrokenPipe,
+                "connection closed after an interrupted frame write",
+            )));
+        }
+        let mut frame_guard = FrameWriteGuard {
+            interrupted: &self.inner.write_interrupted,
+            completed: false,
+        };
         #[cfg(feature = "verif-hooks")]
         crate::verif_hooks::probe("async_client.write.locked", msg.header.id);
         write_message_async(&mut *writer, msg).await?;
         writer.flush().await?;
+        frame_guard.completed = true;
         #[cfg(feature = "verif-hooks")]
         crate::verif_hooks::probe("async_client.written", msg.header.id);
         Ok(())
